@@ -191,6 +191,15 @@ def _clauses(cc):
         c2 = {x for x in c2 if keep_cell(x)}
         f1 = {x for x in f1 if not (x[0] in bad_dtype_cols and str(x[1]).startswith("check#"))}
         f2 = {x for x in f2 if not (x[0] in bad_dtype_cols and str(x[1]).startswith("check#"))}
+        # joint uniqueness (frame-level unique=[...]): the ROWS both backends report are compared under the ordinary key; how a reported
+        # row is labelled (pandas: one cell per column of the subset with that column's value, polars: column None with the value / a
+        # JSON struct of the subset) is compared separately, under a fixed key of its own
+        JU = "multiple_fields_uniqueness"
+        ju1, ju2 = {x for x in c1 if x[1] == JU}, {x for x in c2 if x[1] == JU}
+        if ju1 != ju2 and {x[2] for x in ju1} == {x[2] for x in ju2}:
+            out.append(("failing_cells_equal", "@joint_uniqueness_rows_equal_but_labelled_differently",
+                        f"only_pandas={sorted(map(str, ju1 - ju2))[:4]} only_polars={sorted(map(str, ju2 - ju1))[:4]}"))
+            c1, c2 = c1 - ju1, c2 - ju2
         if c1 != c2:
             only_pd = sorted(map(str, c1 - c2))[:4]
             only_pl = sorted(map(str, c2 - c1))[:4]
@@ -231,6 +240,10 @@ def oracle(cc):
     cl, label = _clauses(cc)
     viol = []
     for clause, key, detail in cl:
+        if key.startswith("@"):  # structural finding with a fixed key: no edit signature
+            viol.append({"clause": clause, "key": key[1:], "detail": detail[:1200]})
+            continue
+
         def still(c2, clause=clause, key=key):
             if not (S.polars_expressible(c2["schema"]) and T.polars_representable(c2["table"])):
                 return False
